@@ -34,7 +34,7 @@ P("C03",
   technique="model-based PBT: generated placements of chain certificates into typed named stores x statement store lists; set-semantics oracle + call-log invariant of an instrumented trust store",
   level_text="Exploration: authenticity verdict and the exact (type,name) sequence of trust-store loads compared with a set-semantics model over generated placements, multi-statement documents, both schemes and formats.",
   level_note="Trusts the instrumented trust store mock; a sub-family runs against the real directory-backed store.",
-  health={"auth=pass": 30, "auth=fail": 30, "decoy-wrong-type": 10, "decoy-unlisted": 10, "decoy-other-statement": 10, "listed-store-error": 10})
+  health={"auth=pass": 30, "auth=fail": 30, "decoy-wrong-type": 10, "decoy-unlisted": 10, "decoy-other-statement": 10, "listed-store-error": 10, "real-directory-store": 10})
 
 P("C04",
   technique="model-based + metamorphic PBT: structured subject/identity generators, own RFC 4514 renderer with generated spacing/alias/escaping; subset oracle on structured data; permutation/spacing/alias invariance",
@@ -96,7 +96,7 @@ P("C10",
   level_text="Exploration with an exhaustively enumerated core: every listing of up to 5 (quick) / 7 (thorough) signatures x every page split x every limit x reference kinds is run through notation.Verify and compared with a model written from the statement, including exact fetch/verify call counts; larger listings are sampled with rapid.",
   level_note="Trusts the scripted Repository/Verifier mocks to record calls faithfully and oras' reference parser for what counts as a tag/digest reference.",
   design_ref="DESIGN.md section 5, C10",
-  health={"success": 10, "success-after-invalid": 5, "multi-page": 10, "empty-page": 5, "skip": 5, "ref=mismatch": 5, "limit<=0": 5},
+  health={"success": 10, "success-after-invalid": 5, "multi-page": 10, "empty-page": 5, "skip": 5, "ref=mismatch": 5, "limit<=0": 5, "real-verifier": 10},
   assumptions=["a verifier that returns an error together with a nil outcome is outside the statement and not generated"])
 
 P("C11",
